@@ -82,7 +82,7 @@ def conserved_flows(tier):
 
 
 def shards(tier, seed):
-    return [('graphs', tier, i) for i in range(NSH[tier])] + [('flows', tier, i) for i in range(8)] + [('ladders', tier, i) for i in range(4)]
+    return [('pinned', tier, 0)] + [('graphs', tier, i) for i in range(NSH[tier])] + [('flows', tier, i) for i in range(8)] + [('ladders', tier, i) for i in range(4)]
 
 
 def simple_paths(G, sources, sinks):
@@ -276,6 +276,14 @@ def ladders(tier):
 
 def run_shard(sh, ctx):
     kind, tier, i = sh
+    if kind == 'pinned':
+        # the recorded input of the open finding (bottleneck scheme on a non-conserved graph)
+        G = np.zeros((4, 4))
+        G[0, 1], G[1, 2], G[1, 3] = 3, 2, 2
+        case = {'G': G.tolist(), 'A': [0], 'B': [2, 3], 'scheme': 'bottleneck', 'num_paths': 'inf', 'cutoff': CUTS[2]}
+        check_case(case, ctx)
+        ctx.sample(case)
+        return
     if kind == 'ladders':
         ls = ladders(tier)
         for j in range(i, len(ls), 4):
